@@ -248,7 +248,7 @@ func checkBlock(accounts map[string]string, prev, cur *ledger.Ledger, st hist.St
 		}
 	}
 
-	hp, hc := prev.AllHoldings(), cur.AllHoldings()
+	hp, hc := prev.AllHoldingsAt(h-1), cur.AllHoldingsAt(h)
 	var owners []string
 	for o := range accounts {
 		owners = append(owners, o)
